@@ -250,7 +250,38 @@ def _signed_group(rng, atoms, neg):
     return [[list(k), rng.random() >= neg] for k in atoms]
 
 
-def gen_conformant(rng, directed=0.2, contingent=0.38, chain=0.25):
+def _threat_restore(rng):
+    """A target literal that is KNOWN initially (same value in every initial state), threatened by an effect conditioned on
+    an unknown atom and restored only case by case:  x: q := T, when [not] u: p := not v   /   y: when [not] u: p := v,
+    goal (p == v) and q.  [x, y] is conformant; the compiled problem needs the merge for the initially known literal.
+    Variations: polarity of p and of the conditions, the restoring effect split over two actions (one per case), the target
+    as a precondition of a final action instead of a goal, a distractor action."""
+    v = rng.random() < 0.5  # the known initial value of p
+    upos = rng.random() < 0.5
+    lit = lambda a, pos: ["f", a] if pos else ["not", ["f", a]]
+    fl = [{"name": n, "type": "bool", "sig": [], "default": ["b", False]} for n in ("u", "p", "q", "r")]
+    eff = lambda f, val, cond: {"kind": "assign", "fluent": ["f", f], "value": ["b", val], "cond": cond, "forall": []}
+    acts = [{"name": "x", "params": [], "pre": [], "effects": [eff("q", True, None), eff("p", not v, lit("u", upos))]}]
+    if rng.random() < 0.5:
+        acts.append({"name": "y", "params": [], "pre": [], "effects": [eff("p", v, lit("u", upos))]})
+    else:  # restore in both cases, one action per case (only one of them matters, the other is harmless)
+        acts.append({"name": "y", "params": [], "pre": [], "effects": [eff("p", v, lit("u", upos))]})
+        acts.append({"name": "y2", "params": [], "pre": [], "effects": [eff("p", v, lit("u", not upos))]})
+    goals = [lit("q", True)]
+    if rng.random() < 0.5:
+        goals.append(lit("p", v))
+    else:  # the known literal is needed as a precondition
+        acts.append({"name": "z", "params": [], "pre": [lit("p", v), lit("q", True)], "effects": [eff("r", True, None)]})
+        goals = [lit("r", True)]
+    if rng.random() < 0.4:
+        acts.append({"name": "d", "params": [], "pre": [], "effects": [eff("q", False, lit("p", not v))]})
+    rng.shuffle(acts)
+    init = [[["f", "u"], ["b", rng.random() < 0.5]], [["f", "p"], ["b", v]], [["f", "q"], ["b", False]], [["f", "r"], ["b", False]]]
+    rec = {"name": "threat", "types": [["T0", None]], "objects": [["o0", ["user", "T0"]]], "fluents": fl, "actions": acts, "init": init, "goals": goals, "invariants": []}
+    return rec, ["directed-threat-restore", "conditional-effect", "initially-known-target-" + ("true" if v else "false")]
+
+
+def gen_conformant(rng, directed=0.2, contingent=0.38, chain=0.25, threat=0.08):
     """-> (recipe, features, uncertainty) with uncertainty =
     {"mode": "explicit", "states": [{"f(a,b)": bool, ...}, ...]} (keys are kstr(k) for k in ground_fluent_keys) or
     {"mode": "contingent", "oneof": [[[key, positive], ...]], "or": [...], "unknown": [key, ...]}"""
@@ -259,6 +290,8 @@ def gen_conformant(rng, directed=0.2, contingent=0.38, chain=0.25):
         rec, feats = _directed(rng)
     elif u < directed + chain:
         rec, feats, early_name = _directed_chain(rng)
+    elif u < directed + chain + threat:
+        rec, feats = _threat_restore(rng)
     else:
         rec, feats = gen_problem(rng, PROFILE)
         feats = list(feats)
@@ -292,6 +325,14 @@ def gen_conformant(rng, directed=0.2, contingent=0.38, chain=0.25):
             s[("ok", ())] = True
             states.append(s)
         return rec, feats, {"mode": "explicit", "states": [{kstr(k): v for k, v in s.items()} for s in states]}
+    if "directed-threat-restore" in feats:
+        uk = ("u", ())
+        if rng.random() < 0.5:
+            return rec, feats + ["contingent", "unknown"], {"mode": "contingent", "oneof": [], "or": [], "unknown": [list(uk)]}
+        s0, s1 = dict(base), dict(base)
+        s1[uk] = not s0[uk]
+        states = [s0, s1] if rng.random() < 0.5 else [s1, s0]
+        return rec, feats + ["explicit-two-states"], {"mode": "explicit", "states": [{kstr(k): v for k, v in s.items()} for s in states]}
     if "directed-chain" in feats:
         chain_atoms = [k for k in keys if k[0].startswith("p")]
         early = next(k for k in chain_atoms if k[0] == early_name)
